@@ -11,20 +11,25 @@ from .vlib import COQ, Check, cps, with_timeout
 PID = "C16"
 CLAIM = dict(
     text="Coq theorems over executable models of the response header views (on_update wiring made explicit): the Vary / Allow / "
-         "Content-Language HeaderSet views and the ResponseCacheControl dict view stay coherent with the header text under every "
-         "sequence of view operations (after a step that changes the view the header text is the view's serialisation, or absent "
-         "when the view is empty; re-reading the property parses back an equal view), built on proved round trips "
-         "parse_list_header(dump_header(list)) and parse_dict_header(dump_header(dict)); assignment/read-back normal forms of the "
-         "typed cache-control directives; CSP, Content-Range and integer scalar properties as far as stated in coq/C16/Props.v. "
+         "Content-Language HeaderSet views, the ResponseCacheControl dict view, the ContentSecurityPolicy dict view and the "
+         "ContentRange view stay coherent with the header text under every sequence of view operations (after a step that changes "
+         "the view the header text is the view's serialisation, or absent when the view is empty; re-reading the property parses "
+         "back an equal view), built on proved round trips parse_list_header(dump_header(list)), parse_dict_header(dump_header(dict)), "
+         "parse_csp_header(dump_csp_header(d)) and parse_content_range_header(ContentRange.to_header()) on their stated domains; "
+         "assignment / read-back normal forms of the typed cache-control directives and of the integer scalar properties; "
+         "WWWAuthenticate: type / token / parameters assignment changes exactly that field, the header is the serialisation after "
+         "every notifying step, token schemes re-read equal. "
          "The on_update decision functions, the _set_cache_value decision chain, the property tables (directive key / empty "
-         "value / type, header names) and the change-notification tables of UpdateDictMixin are regenerated from the source on "
-         "every run; the models are compared with werkzeug.wrappers.Response by differential execution on exhaustive short and "
-         "random long operation sequences, header text and re-read view after every step.",
-    note="Trusted: Coq kernel; translator tools/c16.py; ExtrOcamlBasic extraction + driver; hand-written model of "
-         "urllib.request.parse_http_list and of str.strip/partition (validated differentially); int() modelled on ASCII "
-         "decimal strings only. Items / values containing CR or LF are outside the domain (Headers refuses them, C05). "
-         "WWW-Authenticate, mimetype_params, date-valued and enum-valued scalar properties are exercised by the harness "
-         "oracles only (not modelled in Coq) unless Props.v says otherwise; dates depend on email.utils / datetime (contract).",
+         "value / type, CSP directive names, header names) and the change-notification tables of UpdateDictMixin are regenerated "
+         "from the source on every run; the models are compared with werkzeug.wrappers.Response by differential execution on "
+         "exhaustive short and random long operation sequences, header text and re-read view after every step.",
+    note="Trusted: Coq kernel; translator tools/c16.py (+ tools/c08.py); ExtrOcamlBasic extraction + driver; hand-written model of "
+         "urllib.request.parse_http_list and of str.strip/partition/split (validated differentially); int() modelled on ASCII "
+         "decimal strings only. Items / values containing CR or LF are outside the domain (Headers refuses them, C05); keys ending "
+         "in an asterisk (RFC 2231 form) are outside the dict codec's domain. NOT modelled in Coq, judged on the implementation by "
+         "the harness oracles only: mimetype_params, www_authenticate list assignment, the date-valued "
+         "(email.utils / datetime contract), string-valued, CORS set-valued and enum-valued scalar properties, whole-property "
+         "assignment of ContentRange / WWWAuthenticate objects. Known finding: a set view holding case-insensitive duplicates drifts.",
     design="6/C16")
 
 
@@ -241,6 +246,47 @@ def gen() -> None:
         raise px.Unsupported("ContentSecurityPolicy._set_value changed")
     if [ast.unparse(s) for s in c08._body(c08._method(P, "_del_value"))] != ["if key in self:\n    del self[key]"]:
         raise px.Unsupported("ContentSecurityPolicy._del_value changed")
+    # ---- WWWAuthenticate: attribute routing, digest quoting table, pinned shapes
+    au = px.load("datastructures/auth.py")
+    W = px.find_class(au, "WWWAuthenticate")
+    sa = c08._body(c08._method(W, "__setattr__"))
+    if not (len(sa) == 1 and isinstance(sa[0], ast.If) and isinstance(sa[0].test, ast.Compare) and isinstance(sa[0].test.comparators[0], ast.Set)
+            and [ast.unparse(x) for x in sa[0].body] == ["super().__setattr__(name, value)"]
+            and [ast.unparse(x) for x in sa[0].orelse] == ["self[name] = value"]):
+        raise px.Unsupported("WWWAuthenticate.__setattr__ changed")
+    direct = [px.const(e) for e in sa[0].test.comparators[0].elts]
+    out += "Definition wa_direct_attrs : list str :=\n  [" + "; ".join(px.coq_string_codes(x) for x in direct) + "].\n"
+    if [ast.unparse(x) for x in c08._body(c08._method(W, "__setitem__"))] != [
+            "if value is None:\n    if key in self.parameters:\n        del self.parameters[key]\nelse:\n    self.parameters[key] = value",
+            "self._trigger_on_update()"]:
+        raise px.Unsupported("WWWAuthenticate.__setitem__ changed")
+    if [ast.unparse(x) for x in c08._body(c08._method(W, "__delitem__"))] != [
+            "if key in self.parameters:\n    del self.parameters[key]\n    self._trigger_on_update()"]:
+        raise px.Unsupported("WWWAuthenticate.__delitem__ changed")
+    th = c08._body(c08._method(W, "to_header"))
+    if len(th) != 3 or ast.unparse(th[0]) != "if self.token is not None:\n    return f'{self.type.title()} {self.token}'" \
+            or ast.unparse(th[2]) != "return f'{self.type.title()} {dump_header(self.parameters)}'":
+        raise px.Unsupported("WWWAuthenticate.to_header changed")
+    dg = th[1]
+    want_dg = ("if self.type == 'digest':\n    items = []\n    for key, value in self.parameters.items():\n        if key in {KEYS}:\n"
+               "            value = quote_header_value(value, allow_token=False)\n        else:\n            value = quote_header_value(value)\n"
+               "        items.append(f'{key}={value}')\n    return f'Digest {', '.join(items)}'")
+    keyset = [n for n in ast.walk(dg) if isinstance(n, ast.Set)]
+    if len(keyset) != 1:
+        raise px.Unsupported("WWWAuthenticate.to_header: digest key set not found")
+    if ast.unparse(dg) != want_dg.replace("{KEYS}", ast.unparse(keyset[0])):
+        raise px.Unsupported("WWWAuthenticate.to_header: digest branch changed")
+    out += "Definition wa_digest_quoted : list str :=\n  [" + "; ".join(px.coq_string_codes(px.const(e)) for e in keyset[0].elts) + "].\n"
+    fh = [ast.unparse(x) for x in c08._body(c08._method(W, "from_header"))]
+    if fh != ["if not value:\n    return None", "scheme, _, rest = value.partition(' ')", "scheme = scheme.lower()", "rest = rest.strip()",
+              "if '=' in rest.rstrip('='):\n    return cls(scheme, parse_dict_header(rest), None)", "return cls(scheme, None, rest)"]:
+        raise px.Unsupported("WWWAuthenticate.from_header changed")
+    for prop, body in (("type", ["self._type = value", "self._trigger_on_update()"]), ("token", ["self._token = value", "self._trigger_on_update()"]),
+                       ("parameters", ["self._parameters = CallbackDict(value, lambda _: self._trigger_on_update())", "self._trigger_on_update()"])):
+        setter = [n for n in W.body if isinstance(n, ast.FunctionDef) and n.name == prop
+                  and any(isinstance(d, ast.Attribute) and d.attr == "setter" for d in n.decorator_list)]
+        if len(setter) != 1 or [ast.unparse(x) for x in c08._body(setter[0])] != body:
+            raise px.Unsupported(f"WWWAuthenticate.{prop} setter changed")
     px.write_if_changed(os.path.join(COQ, "C16", "Gen.v"), out)
 
 
@@ -729,6 +775,226 @@ def csp_random_op(rng):
     return (n,)
 
 
+# ====================================================================== harness: content_range
+
+def cr_tok(op) -> str:
+    def oi(x):
+        return "n" if x is None else str(x)
+    if op[0] == "set":
+        return f"set:{oi(op[1])}:{oi(op[2])}:{oi(op[3])}:{ov(op[4])}"
+    if op[0] == "unset":
+        return "unset"
+    if op[0] == "units":
+        return "units:" + ov(op[1])
+    return f"{op[0]}:{oi(op[1])}"
+
+
+def _cr_fields(c) -> list[str]:
+    return [O(c.units), O(c.start), O(c.stop), O(c.length)]
+
+
+def _cr_obs(r, c) -> str:
+    return "|".join([O(r.headers.get("Content-Range")), OQ(list(r.headers))] + _cr_fields(c) + _cr_fields(r.content_range))
+
+
+def run_cr(chk, init, ops, oracle=True) -> str:
+    r = new_response(init)
+    c = r.content_range
+    obs = [_cr_obs(r, c)]
+    ok = oracle
+    for n, op in enumerate(ops):
+        try:
+            if op[0] == "set":
+                c.set(op[1], op[2], op[3], op[4])
+            elif op[0] == "unset":
+                c.unset()
+            else:
+                setattr(c, op[0], op[1])
+            res = "N"
+        except AssertionError:
+            res = "EValueError"          # set() refuses an invalid range (AssertionError): the model's refusal marker
+        except Exception as e:  # noqa: BLE001
+            res = exn_name(e)
+        obs.append(res + "|" + _cr_obs(r, c))
+        if not ok:
+            continue
+        state = (c.units, c.start, c.stop, c.length)
+        if c.units is not None and not (_valid_range(c.start, c.stop, c.length) and c.units and not any(ch.isspace() for ch in c.units)):
+            ok = False      # attribute assignment produced a range is_byte_range_valid rejects, or odd units: outside the domain
+            continue
+        if res != "N":
+            continue
+        case = {"kind": "cr", "init": [list(p) for p in init], "ops": [list(o) for o in ops[:n + 1]]}
+        rr = r.content_range
+        text = r.headers.get("Content-Range")
+        want = c.to_header() if c.units is not None else None
+        rstate = (rr.units, rr.start, rr.stop, rr.length)
+        if c.units is None:
+            state = rstate = (None, rr.units)
+        if text != want or rstate != state:
+            chk.fail("content-range-drift", f"after {op!r}: header {text!r}, view {state!r} serialises to {want!r}, re-read {rstate!r}", case)
+            ok = False
+    return " ".join(obs)
+
+
+CR_INITS = [(), (("Content-Range", "bytes 0-9/100"), ("X", "1")), (("content-range", "bytes */5"),), (("Content-Range", "items  3-4/*"),),
+            (("Content-Range", "bytes 5-2/10"),), (("Content-Range", "bytes"),)]
+
+
+def cr_alphabet():
+    ops = [("unset",)]
+    for s, e, l in [(None, None, None), (None, None, 10), (0, 5, None), (0, 5, 10), (5, 6, 6), (3, 2, 10), (0, 5, 3), (None, 4, None), (-1, 4, 10)]:
+        for u in ("bytes", "items", None):
+            ops.append(("set", s, e, l, u))
+    for u in ("bytes", None, "x y"):
+        ops.append(("units", u))
+    for a, vals in (("start", [None, 0, 4]), ("stop", [None, 1, 50]), ("length", [None, 0, 60])):
+        for v in vals:
+            ops.append((a, v))
+    return ops
+
+
+# ====================================================================== harness: www_authenticate
+
+def wa_tok(op) -> str:
+    n = op[0]
+    if n in ("item", "attr"):
+        return f"{n}:{S(op[1])}:{ov(op[2])}"
+    if n == "delitem":
+        return "delitem:" + S(op[1])
+    if n == "type":
+        return "type:" + S(op[1])
+    if n == "token":
+        return "token:" + ov(op[1])
+    if n == "params":
+        return "params:" + kvs(op[1], ov)
+    return "p:" + dop_tok(op[1], ov)
+
+
+def _wa_fields(w) -> list[str]:
+    return [O(w.type), O(w.token), _cdict(w.parameters)]
+
+
+def _wa_obs(r, w) -> str:
+    return "|".join([O(r.headers.get("WWW-Authenticate")), OQ(list(r.headers))] + _wa_fields(w) + _wa_fields(r.www_authenticate))
+
+
+def _wa_domain(w) -> bool:
+    if not (w.type and w.type == w.type.lower() and set(w.type) <= TOKEN):
+        return False
+    if w.token is not None:
+        t = w.token
+        return not w.parameters and bool(t) and t == t.strip() and "=" not in t.rstrip("=") and "\r" not in t and "\n" not in t
+    return bool(w.parameters) and _cc_domain(w.parameters) and all(v is not None for v in w.parameters.values())
+
+
+def run_wa(chk, init, ops, oracle=True) -> str:
+    r = new_response(init)
+    w = r.www_authenticate
+    obs = [_wa_obs(r, w)]
+    ok = oracle
+    dirty = False
+    for n, op in enumerate(ops):
+        before = (w.type, w.token, dict(w.parameters))
+        try:
+            k = op[0]
+            if k == "item":
+                w[op[1]] = op[2]
+                res = "N"
+            elif k == "delitem":
+                del w[op[1]]
+                res = "N"
+            elif k == "attr":
+                setattr(w, op[1], op[2])
+                res = "N"
+            elif k == "type":
+                w.type = op[1]
+                res = "N"
+            elif k == "token":
+                w.token = op[1]
+                res = "N"
+            elif k == "params":
+                w.parameters = dict(op[1])
+                res = "N"
+            else:
+                res = dres(dop_apply(w.parameters, op[1]))
+        except Exception as e:  # noqa: BLE001
+            res = exn_name(e)
+        now = (w.type, w.token, dict(w.parameters))
+        if now != before:
+            dirty = True
+        obs.append(res + "|" + _wa_obs(r, w))
+        if not ok:
+            continue
+        if not _wa_domain(w):
+            ok = False
+            continue
+        case = {"kind": "wa", "init": [list(p) for p in init], "ops": [list(o) for o in ops[:n + 1]]}
+        if op[0] in ("type", "token", "params") and res == "N":
+            want = {"type": lambda: now[0] == op[1], "token": lambda: now[1] == op[1], "params": lambda: now[2] == dict(op[1])}[op[0]]()
+            if not want:
+                chk.fail("www-authenticate-drift", f"{op!r} read back as {now!r}", case)
+                ok = False
+                continue
+        if not dirty:
+            continue
+        rr = r.www_authenticate
+        text = r.headers.get("WWW-Authenticate")
+        if text != w.to_header() or (rr.type, rr.token, dict(rr.parameters)) != now:
+            chk.fail("www-authenticate-drift", f"after {op!r}: header {text!r}, view {now!r} serialises to {w.to_header()!r}, re-read "
+                     f"{(rr.type, rr.token, dict(rr.parameters))!r}", case)
+            ok = False
+    return " ".join(obs)
+
+
+WA_INITS = [(), (("WWW-Authenticate", 'Basic realm="r"'),), (("www-authenticate", "Bearer abc=="), ("X", "1")),
+            (("WWW-Authenticate", 'Digest realm="a b", qop="auth,auth-int", nonce=abc'),), (("WWW-Authenticate", "Negotiate"),)]
+
+
+def wa_alphabet(full: bool):
+    ops = []
+    for k in (["realm", "nonce", "x-ext"] if full else ["realm"]):
+        for v in (["r", "a b", None] if full else ["a b", None]):
+            ops += [("item", k, v), ("attr", k.replace("-", "_"), v)]
+        ops += [("delitem", k), ("p", ("si", k, "v")), ("p", ("pop", k))]
+        if full:
+            ops += [("p", ("di", k)), ("p", ("sd", k, "d"))]
+    for t in (["basic", "digest", "bearer"] if full else ["digest"]):
+        ops.append(("type", t))
+    for t in (["tok", "abc==", None] if full else ["tok", None]):
+        ops.append(("token", t))
+    for d in ([(("realm", "x"),), (("nonce", "n"), ("qop", "auth")), ()] if full else [(("realm", "x"),)]):
+        ops.append(("params", d))
+    ops += [("p", ("clear",)), ("p", ("popitem",)), ("p", ("up", (("realm", "u"), ("charset", "UTF-8"))))]
+    return ops
+
+
+def wa_random_op(rng):
+    keys = ["realm", "nonce", "qop", "x-ext", "charset", "opaque", "stale"]
+    vals = ["x", "a b", "auth,auth-int", "UTF-8", 'q"t', "a\\b", "", None]
+    r = rng.random()
+    if r < 0.2:
+        return ("item", rng.choice(keys), rng.choice(vals))
+    if r < 0.35:
+        return ("attr", rng.choice(["realm", "nonce", "qop", "x_ext"]), rng.choice(vals))
+    if r < 0.45:
+        return ("delitem", rng.choice(keys))
+    if r < 0.55:
+        return ("type", rng.choice(["basic", "digest", "bearer", "negotiate", "Digest", "x custom"]))
+    if r < 0.65:
+        return ("token", rng.choice(["tok", "abc==", "a=b", "", None, None]))
+    if r < 0.72:
+        return ("params", tuple({rng.choice(keys): rng.choice(vals[:-1]) for _ in range(rng.randint(0, 3))}.items()))
+    n = rng.choice(["si", "di", "pop", "popd", "clear", "sd", "popitem", "up"])
+    if n in ("si", "sd", "popd"):
+        return ("p", (n, rng.choice(keys), rng.choice(vals)))
+    if n in ("di", "pop"):
+        return ("p", (n, rng.choice(keys)))
+    if n == "up":
+        return ("p", ("up", tuple((rng.choice(keys), rng.choice(vals)) for _ in range(rng.randint(0, 2)))))
+    return ("p", (n,))
+
+
 # ====================================================================== harness: views judged by oracles only
 # (content_range, www_authenticate, mimetype_params and the scalar header_property pairs are not modelled in Coq
 #  in this revision unless coq/C16/Props.v says so; the property statement is transcribed here and judged on the
@@ -1038,6 +1304,13 @@ class Runner:
         self.lines: list[str] = []
         self.impl: list[str] = []
 
+    def _guard(self, fn, *a, case=None):
+        try:
+            return with_timeout(fn, 20, *a)
+        except Exception as e:  # noqa: BLE001
+            self.chk.fail("implementation-raised", f"{type(e).__name__}: {e} escaped while operating / observing", case)
+            return "RAISED:" + type(e).__name__
+
     def _push(self, line, out, nontrivial, bucket, sample=None):
         self.lines.append(line)
         self.impl.append(out)
@@ -1045,21 +1318,31 @@ class Runner:
         self.chk.count(bucket)
 
     def sv(self, attr, init, ops, oracle=True):
-        out = with_timeout(run_sv, 20, self.chk, attr, init, ops, oracle)
+        out = self._guard(run_sv, self.chk, attr, init, ops, oracle, case={"kind": "sv", "attr": attr, "init": [list(p) for p in init], "ops": [list(o) if o[0] != "v" else ["v", list(o[1])] for o in ops]})
         self._push(" ".join(["sv", S(SV[attr]), kvs(init, S)] + [sv_tok(o) for o in ops]), out, bool(ops),
                    f"set-view:len{min(len(ops), 4)}{'+' if len(ops) > 4 else ''}",
                    {"view": attr, "init": repr(init), "ops": [repr(o) for o in ops]} if len(ops) == 3 else None)
 
     def cc(self, init, ops, oracle=True):
-        out = with_timeout(run_cc, 20, self.chk, init, ops, oracle)
+        out = self._guard(run_cc, self.chk, init, ops, oracle, case={"kind": "cc", "init": [list(p) for p in init], "ops": [list(o) for o in ops]})
         self._push(" ".join(["cc", kvs(init, S)] + [cc_tok(o) for o in ops]), out, bool(ops),
                    f"cache-control:len{min(len(ops), 4)}{'+' if len(ops) > 4 else ''}",
                    {"view": "cache_control", "init": repr(init), "ops": [repr(o) for o in ops]} if len(ops) == 2 else None)
 
     def csp(self, init, ops, oracle=True):
-        out = with_timeout(run_csp, 20, self.chk, init, ops, oracle)
+        out = self._guard(run_csp, self.chk, init, ops, oracle, case={"kind": "csp", "init": [list(p) for p in init], "ops": [list(o) for o in ops]})
         self._push(" ".join(["csp", kvs(init, S)] + [csp_tok(o) for o in ops]), out, bool(ops),
                    f"csp:len{min(len(ops), 4)}{'+' if len(ops) > 4 else ''}")
+
+    def cr(self, init, ops, oracle=True):
+        out = self._guard(run_cr, self.chk, init, ops, oracle, case={"kind": "cr", "init": [list(p) for p in init], "ops": [list(o) for o in ops]})
+        self._push(" ".join(["cr", kvs(init, S)] + [cr_tok(o) for o in ops]), out, bool(ops),
+                   f"content-range:len{min(len(ops), 4)}{'+' if len(ops) > 4 else ''}")
+
+    def wa(self, init, ops, oracle=True):
+        out = self._guard(run_wa, self.chk, init, ops, oracle, case={"kind": "wa", "init": [list(p) for p in init], "ops": [list(o) for o in ops]})
+        self._push(" ".join(["wa", kvs(init, S)] + [wa_tok(o) for o in ops]), out, bool(ops),
+                   f"www-authenticate:len{min(len(ops), 4)}{'+' if len(ops) > 4 else ''}")
 
     def codec(self, cmd, arg_tok, out):
         self._push(f"{cmd} {arg_tok}", out, True, "codec:" + cmd)
@@ -1077,6 +1360,19 @@ def _case_ops(c):
     return ops
 
 
+def _wa_case_ops(c):
+    ops = []
+    for o in c["ops"]:
+        if o[0] == "params":
+            ops.append(("params", tuple(tuple(p) for p in o[1])))
+        elif o[0] == "p":
+            inner = o[1]
+            ops.append(("p", tuple(tuple(tuple(p) for p in x) if isinstance(x, list) else x for x in inner)))
+        else:
+            ops.append(tuple(o))
+    return ops
+
+
 def run_case(R: Runner, c: dict, oracle=True):
     init = tuple(tuple(p) for p in c.get("init", []))
     if c["kind"] == "sv":
@@ -1085,6 +1381,10 @@ def run_case(R: Runner, c: dict, oracle=True):
         R.cc(init, _case_ops(c), oracle)
     elif c["kind"] == "csp":
         R.csp(init, _case_ops(c), oracle)
+    elif c["kind"] == "cr":
+        R.cr(init, _case_ops(c), oracle)
+    elif c["kind"] == "wa":
+        R.wa(init, _wa_case_ops(c), oracle)
 
 
 def load_corpus():
@@ -1113,10 +1413,10 @@ def run(chk: Check) -> None:
         for init in inits if quick else SV_INITS:
             for ops in itertools.product(full, repeat=2):
                 R.sv(attr, init, ops)
-    for init in (SV_INITS[1:2] if quick else SV_INITS):
+    for init in (SV_INITS[1:2] if quick else SV_INITS[1:3]):
         for ops in itertools.product(red if quick else full, repeat=3):
             R.sv("vary", init, ops)
-    for _ in range(1500 if quick else 30000):
+    for _ in range(3000 if quick else 40000):
         R.sv(rng.choice(list(SV)), rng.choice(SV_INITS), [sv_random_op(rng) for _ in range(rng.randint(3, 25))])
 
     # ---- cache_control
@@ -1128,10 +1428,13 @@ def run(chk: Check) -> None:
     for init in (CC_INITS[:2] if quick else CC_INITS):
         for ops in itertools.product(full, repeat=2):
             R.cc(init, ops)
-    for init in (CC_INITS[1:2] if quick else CC_INITS):
-        for ops in itertools.product(red if quick else full, repeat=3):
-            R.cc(init, ops)
-    for _ in range(1500 if quick else 30000):
+    for ops in itertools.product(red if quick else full, repeat=3):
+        R.cc(CC_INITS[1], ops)
+    if not quick:
+        for init in CC_INITS[2:]:
+            for ops in itertools.product(red, repeat=3):
+                R.cc(init, ops)
+    for _ in range(3000 if quick else 40000):
         R.cc(rng.choice(CC_INITS), [cc_random_op(rng) for _ in range(rng.randint(3, 25))])
 
     # ---- content_security_policy
@@ -1142,8 +1445,34 @@ def run(chk: Check) -> None:
             R.csp(init, ops)
     for ops in itertools.product(full if not quick else red, repeat=2 if quick else 3):
         R.csp(CSP_INITS[1], ops)
-    for _ in range(800 if quick else 15000):
+    for _ in range(2000 if quick else 30000):
         R.csp(rng.choice(CSP_INITS), [csp_random_op(rng) for _ in range(rng.randint(3, 20))])
+
+    # ---- content_range
+    cra = cr_alphabet()
+    for init in CR_INITS:
+        R.cr(init, [])
+        for o in cra:
+            R.cr(init, [o])
+    for init in (CR_INITS[:2] if quick else CR_INITS):
+        for ops in itertools.product(cra, repeat=2):
+            R.cr(init, ops)
+    for _ in range(1000 if quick else 20000):
+        R.cr(rng.choice(CR_INITS), [rng.choice(cra) for _ in range(rng.randint(3, 12))])
+
+    # ---- www_authenticate
+    full, red = wa_alphabet(True), wa_alphabet(False)
+    for init in WA_INITS:
+        R.wa(init, [])
+        for o in full:
+            R.wa(init, [o])
+    for init in (WA_INITS[:2] if quick else WA_INITS):
+        for ops in itertools.product(full, repeat=2):
+            R.wa(init, ops)
+    for ops in itertools.product(red, repeat=3):
+        R.wa(WA_INITS[1], ops)
+    for _ in range(1500 if quick else 30000):
+        R.wa(rng.choice(WA_INITS), [wa_random_op(rng) for _ in range(rng.randint(3, 15))])
 
     # ---- codecs directly: parse_list_header / parse_dict_header / dump_header / int
     atoms = ['"', ",", " ", "\\", "=", "a", "b", "Accept", "x y", "\t", ";", "*", "k", "é", "\x1c", "\xa0", '""', '\\"', ", ", "=v", "k="]
@@ -1177,7 +1506,7 @@ def run(chk: Check) -> None:
         R.codec("int", S(s), v)
 
     # ---- views judged by oracles only
-    oracle_content_range(chk, rng, 400 if quick else 8000)
+    oracle_content_range(chk, rng, 300 if quick else 6000)
     oracle_www_authenticate(chk, rng, 600 if quick else 12000)
     oracle_mimetype_params(chk, rng, 300 if quick else 6000)
     oracle_scalars(chk, rng, 200 if quick else 4000)
@@ -1210,7 +1539,7 @@ def replay(rep) -> int:
     chk = Check(PID, "quick", 0)
     R = Runner(chk)
     inp = rep.get("input") or {}
-    if isinstance(inp, dict) and inp.get("kind") in ("sv", "cc", "csp"):
+    if isinstance(inp, dict) and inp.get("kind") in ("sv", "cc", "csp", "cr", "wa"):
         run_case(R, inp)
         print("case:", json.dumps(inp))
         for i, s in enumerate(R.impl[0].split(" ")):
@@ -1228,7 +1557,7 @@ def main(chk: Check) -> None:
     except px.Unsupported as e:
         chk.broken("translator", "C16/Gen.v", str(e))
     chk.forbidden_scan()
-    if chk.coq_make(["C16/ProofsCSP.vo", "C16/Extract.vo"]):
+    if chk.coq_make(["C16/ProofsCSP.vo", "C16/ProofsCR.vo", "C16/ProofsWA.vo", "C16/Extract.vo"]):
         chk.audit_props("C16/Props.v")
     else:
         chk.cov["obligations"] += 1
@@ -1240,7 +1569,12 @@ def main(chk: Check) -> None:
         "int() on ASCII decimal strings; validated by differential execution",
         "dates: email.utils / datetime are not modelled (the date-valued properties are judged by the harness oracle only)",
     ]
-    run(chk)
+    try:
+        run(chk)
+    except Exception:  # noqa: BLE001
+        import traceback
+        chk.broken("harness-exception", "run", "an exception escaped the harness (the implementation raised where the harness does "
+                   "not expect it):\n" + traceback.format_exc())
     chk.finish(rule="views vary / allow / content_language, cache_control, content_security_policy: every operation sequence of length "
                     "1-2 over the full operation alphabet (view operations, whole-property assignment, direct header edits) from several "
                     "initial header sets, length 3 over a reduced alphabet, random sequences of length 3-25; header text, full header list, "
